@@ -20,6 +20,7 @@ def dispatch (engine : String) (line : String) : String :=
     | "ordinals" => stepOrdinals cas obs
     | "reconcile" => stepReconcile cas obs
     | "sync" => stepSync cas obs
+    | "syncmig" => stepSync cas obs
     | "world" => stepWorld cas obs
     | "events" => stepEvents cas obs
     | "events-pinned" => stepEventsPinned cas obs
